@@ -152,6 +152,10 @@ let spec_line (f : string list) : string =
     (match v2_spec (mbytes x) with
      | Some h -> "[" ^ show_sitems (walk (spec_tlv_section h)) ^ "]"
      | None -> "REJ")
+  | ["views2"; x] ->
+    (match v2_spec (mbytes x) with
+     | Some h -> Printf.sprintf "ab=%s tb=%s %s" (hexs (spec_address_bytes h)) (hexs (spec_tlv_section h)) (v2_hdr h)
+     | None -> "REJ")
   | _ -> "-"
 
 let () =
